@@ -45,6 +45,60 @@ pub fn project_matches(m: &ArgMatches) -> Value {
     Value::Array(chain)
 }
 
+pub fn no_suggestions() -> Value {
+    json!({"try": [], "args": [], "subs": [], "vals": [], "subflag": [], "ddsub": []})
+}
+
+/// everything an error message suggests: the "For more information, try 'X'." footer (from the rendered
+/// text) and the did-you-mean context (SuggestedArg / SuggestedSubcommand / SuggestedValue / free-form tips)
+pub fn suggestions(e: &clap::Error) -> Value {
+    use clap::error::{ContextKind, ContextValue};
+    let text = e.render().to_string();
+    let quoted = |t: &str, pre: &str, post: &str| -> Option<String> {
+        let i = t.find(pre)? + pre.len();
+        let j = t[i..].find(post)? + i;
+        Some(t[i..j].to_string())
+    };
+    let b = |x: &str| jb(x.as_bytes());
+    let mut out = no_suggestions();
+    if let Some(x) = quoted(&text, "For more information, try '", "'.") {
+        out["try"] = b(&x);
+    }
+    let strings = |v: &ContextValue| -> Vec<String> {
+        match v {
+            ContextValue::String(x) => vec![x.clone()],
+            ContextValue::Strings(xs) => xs.clone(),
+            ContextValue::StyledStr(x) => vec![x.to_string()],
+            ContextValue::StyledStrs(xs) => xs.iter().map(|x| x.to_string()).collect(),
+            _ => vec![],
+        }
+    };
+    for (k, v) in e.context() {
+        let xs = strings(v);
+        match k {
+            ContextKind::SuggestedArg => out["args"].as_array_mut().unwrap().extend(xs.iter().map(|x| b(x))),
+            ContextKind::SuggestedSubcommand => out["subs"].as_array_mut().unwrap().extend(xs.iter().map(|x| b(x))),
+            ContextKind::SuggestedValue => out["vals"].as_array_mut().unwrap().extend(xs.iter().map(|x| b(x))),
+            ContextKind::Suggested => {
+                for x in xs {
+                    if let Some(sf) = quoted(&x, "'", "' exists") {
+                        if !x.starts_with("subcommand ") {
+                            let mut it = sf.splitn(2, ' ');
+                            let (sub, flag) = (it.next().unwrap_or(""), it.next().unwrap_or(""));
+                            out["subflag"].as_array_mut().unwrap().push(json!({"sub": b(sub), "flag": b(flag)}));
+                        }
+                    }
+                    if let Some(sub) = quoted(&x, "subcommand '", "' exists") {
+                        out["ddsub"].as_array_mut().unwrap().push(b(&sub));
+                    }
+                }
+            }
+            _ => {}
+        }
+    }
+    out
+}
+
 pub fn run(cmd: &Command, argv: &[Vec<u8>], by_ref: Option<&mut Command>) -> Value {
     let args: Vec<OsString> = argv.iter().map(|a| os(a)).collect();
     let r = match by_ref {
@@ -56,8 +110,9 @@ pub fn run(cmd: &Command, argv: &[Vec<u8>], by_ref: Option<&mut Command>) -> Val
     };
     match r {
         Err(msg) => json!({"outcome": "Panic", "kind": "", "stderr": false, "exit": 0, "rendered": false, "chain": [],
-                           "msg": msg, "at": last_panic_loc()}),
-        Ok(Ok(m)) => json!({"outcome": "Ok", "kind": "", "stderr": false, "exit": 0, "rendered": true, "chain": project_matches(&m)}),
+                           "msg": msg, "at": last_panic_loc(), "sugg": no_suggestions()}),
+        Ok(Ok(m)) => json!({"outcome": "Ok", "kind": "", "stderr": false, "exit": 0, "rendered": true, "chain": project_matches(&m),
+                            "sugg": no_suggestions()}),
         Ok(Err(e)) => {
             let rendered = guarded(std::panic::AssertUnwindSafe(|| {
                 let a = e.render().to_string();
@@ -65,8 +120,9 @@ pub fn run(cmd: &Command, argv: &[Vec<u8>], by_ref: Option<&mut Command>) -> Val
                 !a.is_empty() || !b.is_empty() || true
             }))
             .unwrap_or(false);
+            let sugg = guarded(std::panic::AssertUnwindSafe(|| suggestions(&e))).unwrap_or_else(|_| no_suggestions());
             json!({"outcome": "Err", "kind": format!("{:?}", e.kind()), "stderr": e.use_stderr(), "exit": e.exit_code(),
-                   "rendered": rendered, "chain": []})
+                   "rendered": rendered, "chain": [], "sugg": sugg})
         }
     }
 }
@@ -183,9 +239,19 @@ pub fn parse_replay(defs: &str, input: &str, out: &str, div: &str, threads: usiz
                 let argv = argv_with_bin(&d.recs[di], &r["argv"]);
                 let o = run(cmd, &argv, None);
                 progress.fetch_add(1, Ordering::Relaxed);
-                if !obs_matches(&r["obs"], &o) {
-                    local.mismatch(json!({"d": di + 1, "label": d.recs[di]["label"], "argv": r["argv"], "want": obs_core(&r["obs"]), "got": o}));
-                    divs.push(json!({"d": di + 1, "argv": r["argv"], "obs": obs_core(&o), "rendered": o["rendered"], "tag": r.get("tag").cloned().unwrap_or(json!(""))}));
+                // the footer target is part of the comparison; a line whose message carries a did-you-mean
+                // suggestion always goes to the judge (the model does not predict the similarity measure)
+                let sg = &o["sugg"];
+                let try_ok = o["outcome"] != "Err" || r.get("try").map(|t| *t == sg["try"]).unwrap_or(true);
+                let dym = ["args", "subs", "vals", "subflag", "ddsub"].iter().any(|k| sg[*k].as_array().map(|a| !a.is_empty()).unwrap_or(false));
+                let same = obs_matches(&r["obs"], &o) && try_ok;
+                if !same || dym {
+                    if !same {
+                        local.mismatch(json!({"d": di + 1, "label": d.recs[di]["label"], "argv": r["argv"], "want": obs_core(&r["obs"]), "want_try": r.get("try").cloned().unwrap_or(json!(null)), "got": o}));
+                    } else {
+                        local.count("suggestions_judged", 1);
+                    }
+                    divs.push(json!({"d": di + 1, "argv": r["argv"], "obs": obs_core(&o), "rendered": o["rendered"], "sugg": o["sugg"], "tag": r.get("tag").cloned().unwrap_or(json!(""))}));
                 } else if local.samples.len() < 2 && r["argv"].as_array().unwrap().len() >= 2 {
                     local.sample(json!({"def": d.recs[di]["label"], "argv": r["argv"].as_array().unwrap().iter().map(|a| String::from_utf8_lossy(&bytes_of(a)).into_owned()).collect::<Vec<_>>(), "obs": obs_core(&o)}));
                 }
@@ -231,7 +297,7 @@ pub fn parse_record(defs: &str, seed: u64, n: usize, maxlen: usize, out: &str) {
         }
         let argv = Value::Array(argv);
         let o = run(d.cmds[di].as_ref().unwrap(), &argv_with_bin(&d.recs[di], &argv), None);
-        w.put(&json!({"d": di + 1, "argv": argv, "obs": obs_core(&o), "rendered": o["rendered"], "tag": ""}));
+        w.put(&json!({"d": di + 1, "argv": argv, "obs": obs_core(&o), "rendered": o["rendered"], "sugg": o["sugg"], "tag": ""}));
     }
     w.finish();
 }
